@@ -5,7 +5,7 @@ in the contract files themselves (contracts/fns/*.vc)."""
 # property -> {"units": [verus unit names], "kani": [harness group names], "undecided": [clauses not decided]}
 PROPS = {
     "C02": {
-        "units": ["U4_end_records", "U5_header_writers", "U7_writer", "U7a_writer_leaves", "U7b_append_copy"],
+        "units": ["U4_end_records", "U5_header_writers", "U7_writer", "U7a_writer_leaves", "U7b_append_copy", "U13_roundtrip"],
         "kani": ["types"],
         "technique": "Verus contracts on the record/header serialisers against APPNOTE layout spec functions (the independent parser), with inverse lemmas",
         "level_text": "Deductive proof, for every entry metadata value and every sink behaviour (short writes, failure at any call), that each serialiser either reports an error or has written exactly the APPNOTE 4.3.7 / 4.3.12 / 4.3.14-16 / 4.5.3 byte layout of its argument: local header, back-patch of CRC/sizes (in place, nothing else touched), central header with the ZIP64 record carrying exactly the saturated fields, end records; the UTF-8 flag is bit 11 exactly for non-ASCII names; name/extra lengths that do not fit 16 bits are refused before anything is written; version-needed is at least what the entry uses.",
@@ -13,7 +13,7 @@ PROPS = {
         "undecided": ["central records of earlier iterations are still in place when finalize returns (append-only frame; per-record placement is proved)", "stored CRC/sizes match the decoded data: compressors assumed; the writer records crc32(hasher view) and the accepted byte count (proved)"],
     },
     "C08": {
-        "units": ["U4_end_records", "U5_header_writers", "U6_central_parser", "U7_writer", "U8b_archive"],
+        "units": ["U4_end_records", "U5_header_writers", "U6_central_parser", "U7_writer", "U8b_archive", "U13_roundtrip"],
         "kani": ["types"],
         "technique": "Verus contracts: ZIP64 writer layouts vs APPNOTE spec functions and the reader's extra-field walk proved against an APPNOTE walk spec (all u64 values, no enumeration)",
         "level_text": "Deductive proof for all 64-bit values (sizes and offsets are symbolic, including 0xFFFFFFFF and its neighbours): the central ZIP64 record carries exactly the fields whose 32-bit header field is saturated, in the fixed order; the local one carries both sizes; the reader's extra-field walk substitutes exactly the saturated fields in that order for any well-formed extra field in any record order (loop invariant against a recursive APPNOTE walk); ZIP64 end record and locator are written and parsed per APPNOTE with inverse lemmas; back-patching refuses a compressed size above 4 GiB without large_file.",
@@ -21,7 +21,7 @@ PROPS = {
         "undecided": [],
     },
     "C03": {
-        "units": ["U4_end_records", "U6_central_parser", "U8_entry_readers", "U8b_archive"],
+        "units": ["U4_end_records", "U6_central_parser", "U8_entry_readers", "U8b_archive", "U13_roundtrip"],
         "kani": ["types"],
         "technique": "Verus contracts on the end-record search/parsers against APPNOTE spec functions; Kani complete harness for the attribute-to-mode table",
         "level_text": "Deductive proof over all byte strings and all I/O outcomes: the end-of-central-directory search returns the last signature occurrence whose record fits (so trailing garbage is tolerated), every field equals the APPNOTE 4.3.16/4.3.15/4.3.14 decode of the bytes at that offset, the ZIP64 forward search returns the first record at or after the nominal offset, and an error is returned only on a device fault or when no well-formed record exists in the window. unix_mode() is proved for all 2^32 attribute words x 256 systems with Kani.",
@@ -69,7 +69,7 @@ PROPS = {
         "undecided": [],
     },
     "C01": {
-        "units": ["U4_end_records", "U5_header_writers", "U6_central_parser", "U7_writer", "U7a_writer_leaves", "U7b_append_copy", "U8_entry_readers", "U8b_archive", "U9_crc"],
+        "units": ["U4_end_records", "U5_header_writers", "U6_central_parser", "U7_writer", "U7a_writer_leaves", "U7b_append_copy", "U8_entry_readers", "U8b_archive", "U9_crc", "U13_roundtrip"],
         "kani": ["types"],
         "technique": "Verus contracts on writer and reader against shared APPNOTE spec functions, with proved inverse lemmas for the end records",
         "level_text": "Deductive proof of both directions against the same APPNOTE layout functions: every header/record the writer emits equals enc_X(entry) (local header at the recorded offset, central header, end records) and every reader function returns the APPNOTE decode dec_X of the bytes it is handed, with inverse lemmas dec(enc(x)) == x proved for the three end records; the writer records crc32 of exactly the bytes accepted and their count; the reader stack verifies that CRC; DOS time pack/unpack are mutually inverse (Kani, all 2^32 words); the permission bits land in external_attributes << 16 and come back through unix_mode(); Drop and finish() both run the same finalize from the same state unless the writer is already closed.",
@@ -93,7 +93,7 @@ PROPS = {
         "undecided": ["abstract entry-list lemma over whole call sequences (per-operation effects on `files` are proved)"],
     },
     "C13": {
-        "units": ["U7b_append_copy", "U7_writer", "U8b_archive", "U6_central_parser", "U5_header_writers"],
+        "units": ["U7b_append_copy", "U7_writer", "U8b_archive", "U6_central_parser", "U5_header_writers", "U13_roundtrip"],
         "kani": ["types"],
         "technique": "Verus contracts on new_append (reuses the reader's directory contracts) + frame clauses of the writer operations",
         "level_text": "Deductive proof that new_append returns a well-formed writer whose entry list is the APPNOTE parse of the old central directory (same contracts as the reader), with the existing bytes untouched, positioned exactly on the old directory (the final seek is propagated) and in the state in which the first close does not rewrite the last old entry; every later operation leaves all entries but the open one untouched (frame clauses); the re-emitted central header carries system, version, flags, method, time, CRC, sizes, attributes and offset of the entry record (U5), which is what the reader parsed (U6). The repaired defect (refused start_file corrupting the last old entry) is pinned.",
@@ -117,7 +117,7 @@ PROPS = {
         "undecided": [],
     },
     "C10": {
-        "units": ["U8_entry_readers", "U12_extract"],
+        "units": ["U8_entry_readers", "U12_extract", "U13_roundtrip"],
         "kani": [],
         "technique": "Verus contracts on read_zipfile_from_stream, the visitor loop and the drain loop of Drop for ZipFile against the APPNOTE local-header decode",
         "level_text": "Deductive proof that the streaming reader answers end-of-entries exactly at a central-directory signature, decodes a local header per APPNOTE 4.3.7 (name by the UTF-8 flag, sizes through the same ZIP64 extra-field walk as the seekable reader, DOS time, method), refuses encrypted and data-descriptor entries with an error, bounds the content by the declared compressed size at the offset after name and extra field, wraps it in the CRC-checking stack, and that dropping an entry drains the underlying stream to exactly the end of its compressed data (limit reaches 0) however much was consumed and however the source splits its reads, unless the source ends or faults.",
@@ -141,7 +141,7 @@ PROPS = {
         "undecided": ["for safe and consistent names the directory afterwards contains exactly the archive's tree with identical contents and modes (filesystem semantics + decoders: not expressible as a contract on this code)", "pre-existing symlinks inside the target directory"],
     },
     "C19": {
-        "units": ["U5_header_writers", "U6_central_parser", "U8_entry_readers", "U7_writer", "U7b_append_copy"],
+        "units": ["U5_header_writers", "U6_central_parser", "U8_entry_readers", "U7_writer", "U7b_append_copy", "U13_roundtrip"],
         "kani": ["cp437"],
         "technique": "Kani complete harness for the CP437 table (all 256 bytes, against the Unicode table shipped in CPython) + Verus contracts on the flag-driven decoding in both readers and on the writer's name bytes/flag, closed by a checked round-trip lemma",
         "level_text": "Complete symbolic proof (Kani, all 256 byte values) that to_char is the Unicode consortium CP437 mapping as shipped in CPython; deductive proof (Verus, all byte strings, all flag words) that both the central-directory parser and the streaming local-header reader decode name and comment with UTF-8-lossy exactly when general-purpose bit 11 is set and with CP437 otherwise, never fail because of the text's content, and keep the stored bytes unchanged in file_name_raw (name_raw(), name(), comment() are proved to be plain projections); that the writer stores exactly utf8(name) in local and central header and sets bit 11 exactly for non-ASCII names; that every start_*/add_*/raw_copy call names the new entry with exactly the string it was given (add_directory: plus the trailing slash) and no later operation renames it; and a checked lemma that a name so written decodes back to the same string.",
@@ -149,7 +149,7 @@ PROPS = {
         "undecided": ["from_cp437 on byte strings longer than the Kani bound (argued: a per-byte map; bounded stand-in only)", "String::from_utf8_lossy replaces invalid sequences and never errors (std; uninterpreted)"],
     },
     "C18": {
-        "units": [],
+        "units": ["U13_roundtrip"],
         "kani": ["types"],
         "technique": "Kani complete (loop-free, full 2^32 domain) harnesses + function contracts on the real DateTime code",
         "level_text": "Complete symbolic proof with Kani/CBMC over the real crate: pack/unpack are mutually inverse for all 2^32 (date,time) words; the checked constructor accepts exactly the documented ranges and accepted values survive pack/unpack up to 2 s; to_time never panics and is Err exactly for impossible dates; to_time/TryFrom are mutually inverse; TryFrom accepts exactly 1980..=2107. The real `time` crate code is executed symbolically, not assumed.",
